@@ -45,6 +45,7 @@ inductive Prim where
   | fillOrder (o : Order) (d0 d1 : Int)     -- `o` is the order before the fill; v0 -= d0, v1 -= d1
   | useCheck (h : String)
   | setCoinOwner (sym : String) (a : Addr)
+  | bumpVersion (c : Coin) (v : Nat)
   | note (tag : String)                     -- bookkeeping without value (multisig, candidate settings, votes …)
   deriving Repr
 
@@ -112,6 +113,7 @@ def Prim.apply (s : State) : Prim → State
   | .fillOrder o d0 d1 => { s with orders := updFirst (·.id == o.id) (fun x => { x with v0 := x.v0 - d0, v1 := x.v1 - d1 }) s.orders }
   | .useCheck h => { s with usedChecks := h :: s.usedChecks }
   | .setCoinOwner sym a => { s with coins := s.coins.map (fun ci => if ci.symbol == sym then { ci with owner := some a } else ci) }
+  | .bumpVersion c v => { s with coins := updFirst (·.id == c) (fun ci => { ci with version := v }) s.coins }
   | .note _ => s
 
 /-- Checked application of a plan: `none` as soon as a side condition fails. -/
